@@ -175,6 +175,10 @@ var c12Calls = []c12Call{
 	{"Unsafe(SafeValue and Stringer types)", func() string {
 		return string(redact.Sprintf("%v %v", redact.Unsafe(safeT("pub")), redact.Unsafe(strT{"s"})))
 	}},
+	{"fast-path verbs on empty/zero operands", func() string {
+		return string(redact.Sprintf("%x|%x|% x|%s|%d|%v|%q|%c", "", []byte(nil), "", "", 0, nil, "", 0))
+	}},
+	{"width then fast-path verbs", func() string { return string(redact.Sprintf("%12d|%x|%s|%-9.3f|%x", 1, "", "", 2.5, []byte{})) }},
 	{"hex/quote", func() string { return string(redact.Sprintf("%x % x %q %c", "hi", []byte("yo"), "q", 'c')) }},
 	{"Sprint spacing", func() string { return string(redact.Sprint(1, 2, "a", "b", 3.5, nil)) }},
 	{"Redactable operand", func() string { return string(redact.Sprintf("%v.", redact.RedactableString("r"+mStart+"x"+mEnd))) }},
